@@ -708,7 +708,12 @@ func runConc(c Case, tmp string, res *lib.Result) {
 	}
 }
 
-func runCase(c Case, tmp string, res *lib.Result) []string {
+func runCase(c Case, tmp string, res *lib.Result) (ret []string) {
+	defer res.Recover(c)
+	return runCaseRaw(c, tmp, res)
+}
+
+func runCaseRaw(c Case, tmp string, res *lib.Result) []string {
 	switch c.Kind {
 	case "hist":
 		return runHist(c, tmp, res)
